@@ -92,20 +92,30 @@ def check_config(cfg):
         require(parsed == mono, "names:wrong-monomial", "column %d holds %r but is named %r" % (j, mono, name), facts)
     # custom input names where one name is contained in another ("a" in "ab"): tokens are matched exactly
     custom = ["a", "ab", "b", "abc", "ba", "x", "xx", "age", "page", "wage", "c1", "c11", "c", "d"][:n]
-    cnames = list(ef.get_feature_names_out(custom))
-    require(len(cnames) == out.shape[1], "names:count:custom", "", facts)
-    for j, name in enumerate(cnames):
-        mono = _monomial(out[0, j], PRIMES[:n])
-        exps = [0] * n
-        ok = True
-        if name.strip() != "1":
-            for tok in name.split():
-                base, _, power = tok.partition("^")
-                if base not in custom:
-                    ok = False
-                    break
-                exps[custom.index(base)] += int(power or 1)
-        require(ok and tuple(exps) == mono, "names:wrong-monomial:custom-names", "column %d holds %r but is named %r (input names %r)" % (j, mono, name, custom), facts)
+    def check_custom(cnames, custom, stage=""):
+        require(len(cnames) == out.shape[1], "names:count:custom" + stage, "", facts)
+        for j, name in enumerate(cnames):
+            mono = _monomial(out[0, j], PRIMES[:n])
+            exps = [0] * n
+            ok = True
+            if name.strip() != "1":
+                for tok in name.split():
+                    base, _, power = tok.partition("^")
+                    if base not in custom:
+                        ok = False
+                        break
+                    exps[custom.index(base)] += int(power or 1)
+            require(ok and tuple(exps) == mono, "names:wrong-monomial:custom-names" + stage, "column %d holds %r but is named %r (input names %r)" % (j, mono, name, custom), facts)
+
+    check_custom(list(ef.get_feature_names_out(custom)), custom)
+    # the answer is a function of the names GIVEN NOW: further calls with other names, each list a temporary released after its call
+    # (a later list may well sit at the address of an earlier one), and one list object edited in place between two calls
+    for r in range(3):
+        check_custom(list(ef.get_feature_names_out(["%s%d" % ("pqr"[r], i) for i in range(n)])), ["%s%d" % ("pqr"[r], i) for i in range(n)], ":later-call")
+    same_list = list(custom)
+    ef.get_feature_names_out(same_list)
+    same_list[:] = ["z%d" % i for i in range(n)]
+    check_custom(list(ef.get_feature_names_out(same_list)), list(same_list), ":list-edited-in-place")
     labels = [cfg["kind"], "interaction" if cfg["interaction_only"] else "all", "bias" if cfg["include_bias"] else "nobias",
               "degree=%d" % cfg["degree"], "n>=degree" if n >= cfg["degree"] else "n<degree"]
     return Outcome(labels, cfg["degree"] >= 2, key=cfg)
